@@ -338,7 +338,8 @@ def gen_history(rng, nappend, structural=None, auto=None, variant=None):
     elif structural == "time_games":
         # time repeating, going backwards, huge: snapshots whose t equals t0 after other times, t < previous t
         ops = [["snap"], ["steps", 2], ["snap"], ["sett", "t0"], ["snap"], ["steps", 1], ["snap"], ["sett", "prev"], ["snap"],
-               ["sett", -3.5], ["snap"], ["sett", "t0"], ["set", "G", 0.5], ["snap"], ["sett", 1e15], ["steps", 1], ["snap"]]
+               ["sett", -3.5], ["snap"], ["sett", "t0"], ["set", "G", 0.5], ["snap"], ["sett", 1e15], ["steps", 1], ["snap"],
+               ["setsteps", 2 ** 32 + 5], ["snap"], ["steps", 2], ["snap"], ["setsteps", 2 ** 40 + 1], ["snap"]]
     elif structural == "nothing_changed":
         # consecutive snapshots with no change at all, also right after the first one
         ops = [["snap"], ["snap"], ["snap"], ["steps", 2], ["snap"], ["snap"], ["set", "G", 0.5], ["set", "G", 1.0], ["snap"]]
@@ -474,6 +475,24 @@ def hex64(x):
     return "%016x" % struct.unpack("<Q", struct.pack("<d", x))[0]
 
 
+LIVE_ATTRS = ["t", "dt", "G", "N", "N_var", "N_active", "steps_done", "simulationarchive_next", "simulationarchive_next_step",
+              "simulationarchive_auto_step", "simulationarchive_auto_interval", "dt_last_done", "softening", "exit_max_distance"]
+
+
+def live_values(s):
+    """values of scalar members read from the struct itself (not through a serialisation): what a restored snapshot
+    must show — a writer that truncates a field truncates it in every stream, only the live struct knows better"""
+    out = {}
+    for a in LIVE_ATTRS:
+        v = getattr(s, a)
+        out[a] = hex64(v) if isinstance(v, float) else int(v)
+    out["ias15_iterations_max_exceeded"] = int(s.ri_ias15._iterations_max_exceeded)
+    if s.N > 0:
+        q = s.particles[s.N - 1]
+        out["last_particle"] = [hex64(q.x), hex64(q.vy), hex64(q.m), int(q.hash.value)]
+    return out
+
+
 def run_history(rebound, hist, wd, load_back=True, keep_copies=False):
     """executes the history on the real code.  Writes wd/arch.bin, wd/s<k>.bin (serialisation of the live
     state at append k), wd/l<k>.bin (serialisation of snapshot k as loaded by the Python class), wd/meta.json"""
@@ -498,7 +517,7 @@ def run_history(rebound, hist, wd, load_back=True, keep_copies=False):
         cp = s.copy()
         selfeq = bool(cp == s)
         kept.append(cp)
-        meta["appends"].append(dict(kind=kind, t=hex64(s.t), steps=int(s.steps_done), N=int(s.N), selfeq=selfeq))
+        meta["appends"].append(dict(kind=kind, t=hex64(s.t), steps=int(s.steps_done), N=int(s.N), selfeq=selfeq, live=live_values(s)))
 
     caps = []   # (steps_done, t, path, copy) captured in the heartbeat during integrate
 
@@ -650,6 +669,10 @@ def run_history(rebound, hist, wd, load_back=True, keep_copies=False):
                 meta["events"].append("sett")
             elif o == "synchronize":
                 sim.synchronize()
+            elif o == "setsteps":
+                sim.steps_done = op[1]
+                sim.ri_ias15._iterations_max_exceeded = op[1] + 3
+                meta["events"].append("setsteps")
             elif o == "massless":
                 if 0 < op[1] < sim.N - sim.N_var:
                     sim.particles[op[1]].m = 0.0
@@ -786,8 +809,10 @@ def run_history(rebound, hist, wd, load_back=True, keep_copies=False):
             back["t"] = [hex64(sa.t[i]) for i in range(nb)]
             back["offset"] = [int(sa.offset[i]) for i in range(nb)]
             back["eq"] = []
+            back["vals"] = []
             for k in range(nb):
                 s = sa[k]
+                back["vals"].append(live_values(s))
                 lp = os.path.join(wd, "l%d.bin" % k)
                 if os.path.exists(lp):
                     os.remove(lp)
@@ -804,6 +829,101 @@ def run_history(rebound, hist, wd, load_back=True, keep_copies=False):
         json.dump(back, f)
     meta["back"] = back
     return meta
+
+
+def residual_tail_case(c, rebound, run_driver, drv, V, wd, rng, variant):
+    """a complete trailer chain followed by residual bytes: a crash persisted the file length but the last blocks
+    read back as zeros (or garbage) over MORE than one snapshot.  Restart from sa[-1] and keep appending: every
+    append must land at the end of the last valid snapshot (theorem c07_append_position_any_tail), the final archive
+    must expose the snapshots of the uninterrupted run, and the model's append (corruption test + repair walk) must
+    reproduce the bytes of every restarted append.  -> dict(ok, detail) ; violations are reported through `c`"""
+    os.makedirs(wd, exist_ok=True)
+    full = os.path.join(wd, "full.bin")
+    integ = ["whfast", "leapfrog", "ias15", "saba"][variant % 4]
+    nsn = 8
+    m = 4                       # snapshots 0..m-1 survive
+    parts = [gen_particle(rng, star=True), gen_particle(rng), gen_particle(rng)]
+
+    def mk():
+        sim = rebound.Simulation()
+        for p in parts:
+            sim.add(**p)
+        sim.integrator = integ
+        sim.dt = 0.01
+        return sim
+
+    def fullrun():
+        import warnings
+        warnings.filterwarnings("ignore")
+        sim = mk()
+        for i in range(nsn):
+            sim.save_to_file(full)
+            shutil.copy(full, os.path.join(wd, "a%d.bin" % i))
+            sim.steps(2 + i)
+    import shutil
+    if fork_run(fullrun, timeout=60) != 0:
+        return None
+    a_hi = open(os.path.join(wd, "a%d.bin" % (m + 1)), "rb").read()
+    a_lo = open(os.path.join(wd, "a%d.bin" % (m - 1)), "rb").read()
+    blobs = parse_archive(a_hi)
+    if len(blobs) != m + 2:
+        return None
+    end = blobs[m - 1]["end"]
+    kind = ["zeros_link_kept", "zeros_link_cleared", "garbage", "zeros_long"][(variant // 4) % 4]
+    if kind == "zeros_link_kept":          # trailer m-1 still points to the lost snapshot m
+        img_b = a_hi[:end] + bytes(len(a_hi) - end)
+    elif kind == "zeros_link_cleared":     # trailer m-1 says "last" and zeros follow
+        img_b = a_lo + bytes(len(a_hi) - len(a_lo))
+    elif kind == "garbage":
+        tail = bytes(rng.randint(0, 255) for _ in range(len(a_hi) - end - 4)) + b"\x07\x00\x00\x01"
+        img_b = a_hi[:end] + tail
+    else:
+        img_b = a_hi[:end] + bytes(3 * (len(a_hi) - end) + 1000)
+    img = os.path.join(wd, "img.bin")
+    open(img, "wb").write(img_b)
+
+    def restart():
+        import warnings
+        warnings.filterwarnings("ignore")
+        sim = rebound.Simulation(img, snapshot=-1)
+        sim.steps(2 + (m - 1))
+        for i in range(m, nsn):
+            shutil.copy(img, os.path.join(wd, "before%d.bin" % i))
+            p = os.path.join(wd, "rs%d.bin" % i)
+            if os.path.exists(p):
+                os.remove(p)
+            sim.save_to_file(p)
+            sim.save_to_file(img)
+            shutil.copy(img, os.path.join(wd, "after%d.bin" % i))
+            sim.steps(2 + i)
+    rc = fork_run(restart, timeout=60)
+    out = os.path.join(wd, "cmp.json")
+    if os.path.exists(out):
+        os.remove(out)
+    rc2 = fork_run(py_compare, rebound, img, full, out, wd) if rc == 0 else 1
+    det = json.load(open(out)) if os.path.exists(out) else dict(rc=rc)
+    ok = rc == 0 and rc2 == 0 and det.get("error") is None and det["n"][0] == det["n"][1] == nsn and det["t"][0] == det["t"][1] and all(not x for x in det["diff"])
+    rep = dict(kind=kind, integrator=integ, particles=parts, surviving=m, written=nsn, restart_rc=rc, exposed=det.get("n"), diff=det.get("diff"))
+    c.count(("residual-tail", kind, integ))
+    if not ok:
+        c.violation("restart-differs:residual-tail", "a complete chain of %d snapshots followed by a damaged tail (%s) longer than one snapshot; restart from sa[-1] and "
+                    "%d more appends: archive exposes %s snapshots, %d were written" % (m, kind, nsn - m, (det.get("n") or ["?"])[0], nsn), rep)
+    # tie: the model's append on every intermediate file
+    lines, idx = [], []
+    for i in range(m, nsn):
+        b_, s_, a_ = (os.path.join(wd, x % i) for x in ("before%d.bin", "rs%d.bin", "after%d.bin"))
+        if all(os.path.exists(x) for x in (b_, s_, a_)):
+            lines.append("append %s %s %s %s" % (V, b_, s_, os.path.join(wd, "m%d.bin" % i)))
+            idx.append(i)
+    outs = run_driver(drv, lines) if lines else []
+    neq = 0
+    for i, o in zip(idx, outs):
+        mp = os.path.join(wd, "m%d.bin" % i)
+        if not (o.startswith("ok") and os.path.exists(mp) and open(mp, "rb").read() == open(os.path.join(wd, "after%d.bin" % i), "rb").read()):
+            neq += 1
+            c.corr_break("model append on archive ++ residual tail (%s, append %d) differs from what the real code wrote (%s)" % (kind, i, o[:80]), rep)
+    shutil.rmtree(wd, ignore_errors=True)
+    return dict(ok=ok, kind=kind, model_appends_equal=len(idx) - neq)
 
 
 def only_sign_of_zero(a, b):
